@@ -24,6 +24,10 @@ func convertTWCC(feedback *rtcp.TransportLayerCC) []acknowledgement {
 		switch chunk := pc.(type) {
 		case *rtcp.RunLengthChunk:
 			for i := uint16(0); i < chunk.RunLength; i++ {
+				if offset >= int(feedback.PacketStatusCount) {
+					// statuses beyond the declared count (over-long runs, padding of the last chunk) are not reports
+					return acks
+				}
 				seqNr := feedback.BaseSequenceNumber + uint16(offset) // nolint:gosec
 				offset++
 				switch chunk.PacketStatusSymbol {
@@ -59,6 +63,9 @@ func convertTWCC(feedback *rtcp.TransportLayerCC) []acknowledgement {
 			}
 		case *rtcp.StatusVectorChunk:
 			for _, s := range chunk.SymbolList {
+				if offset >= int(feedback.PacketStatusCount) {
+					return acks
+				}
 				seqNr := feedback.BaseSequenceNumber + uint16(offset) // nolint:gosec
 				offset++
 				switch s {
